@@ -1665,6 +1665,15 @@ def tie_check(ctx, prog, tie, verdict, stream, imp=None):
             if tie.get("inv_declared") and not real_declared:
                 ctx.disagreement(stream + ":theorem-tie", {"program": prog},
                                  "invB refuses the initial environment for a declared node (%s) but every real node holds a value" % tie.get("inv_bad"))
+        if tie.get("base_nested") is not None:
+            # both stages of C17_refinement_on_base_partial: invB on the environment the base text starts from, runNB
+            # on the base text, runNB on the main text in the environment the base parse returned
+            both = tie.get("inv0") and tie["base_nested"] == "accepts" and tie.get("nested") == "accepts"
+            ctx.count("tie.on_base.base_%s" % tie["base_nested"])
+            ctx.count("tie.on_base.covered_%s" % ("yes" if both else "no"))
+            if both and not tie["inv"]:
+                ctx.disagreement(stream + ":theorem-tie", {"program": prog},
+                                 "invB and runNB accept the base stage but invB refuses the environment the base parse returns")
         covered = tie["inv"] and tie.get("nested") == "accepts"
         ctx.count("tie.covered.%s" % ("yes" if covered else "no"))
         if covered and verdict == "ok":
